@@ -95,5 +95,46 @@ package dnsforward
 //@ func (s *Server) clientIDFromDNSContext(pctx *proxy.DNSContext) (clientID string, err error)
 //@   property C16
 //@   modifies lastCID, lastCIDErr
+//@   ensures no-clientid-on-plain: pctx.Proto != proxy.ProtoHTTPS && pctx.Proto != proxy.ProtoTLS && pctx.Proto != proxy.ProtoQUIC ==> clientID == "" && err == nil
 //@   ghost at return: lastCID = clientID
 //@   ghost at return: lastCIDErr = (err != nil)
+
+// ---- C16: ClientID extraction ----
+
+//@ define validLabel(s string) bool = netutil.ValidateHostnameLabel(s) == nil
+
+//@ func ValidateClientID(id string) (err error)
+//@   property C16
+//@   modifies nothing
+//@   ensures (err == nil) == validLabel(id)
+
+//@ func clientIDFromClientServerName(hostSrvName string, cliSrvName string, strict bool) (clientID string, err error)
+//@   property C16
+//@   modifies nothing
+//@   ensures same-name: hostSrvName == cliSrvName ==> clientID == "" && err == nil
+//@   ensures extracted: err == nil && clientID != "" ==> netutil.IsImmediateSubdomain(cliSrvName, hostSrvName) && validLabel(cliSrvName[:len(cliSrvName)-len(hostSrvName)-1]) && clientID == strings.ToLower(cliSrvName[:len(cliSrvName)-len(hostSrvName)-1])
+//@   ensures invalid-label-fails: hostSrvName != cliSrvName && netutil.IsImmediateSubdomain(cliSrvName, hostSrvName) && !validLabel(cliSrvName[:len(cliSrvName)-len(hostSrvName)-1]) ==> err != nil
+//@   ensures valid-label-ok: hostSrvName != cliSrvName && netutil.IsImmediateSubdomain(cliSrvName, hostSrvName) && validLabel(cliSrvName[:len(cliSrvName)-len(hostSrvName)-1]) ==> err == nil && clientID == strings.ToLower(cliSrvName[:len(cliSrvName)-len(hostSrvName)-1])
+//@   ensures strict-rejects: strict && hostSrvName != cliSrvName && !netutil.IsImmediateSubdomain(cliSrvName, hostSrvName) ==> err != nil
+//@   ensures lax-ignores: !strict && hostSrvName != cliSrvName && !netutil.IsImmediateSubdomain(cliSrvName, hostSrvName) ==> err == nil && clientID == ""
+
+// DoH path: after path.Clean and splitting at "/", the segments (without the leading empty one) must be
+// ["dns-query"] (no ClientID) or ["dns-query", id] with id a valid label; anything else fails.
+//@ define segs(p string) []string = strings.Split(path.Clean(p), "/")
+//@ define lead(p string) int = (segs(p)[0] == "" ? 1 : 0)
+
+//@ func clientIDFromDNSContextHTTPS(pctx *proxy.DNSContext) (clientID string, err error)
+//@   property C16
+//@   modifies nothing
+//@   nullable pctx.HTTPRequest
+//@   ensures nil-request: pctx.HTTPRequest == nil ==> err != nil
+//@   ensures extracted: err == nil && clientID != "" ==> len(segs(pctx.HTTPRequest.URL.Path)) - lead(pctx.HTTPRequest.URL.Path) == 2 && segs(pctx.HTTPRequest.URL.Path)[lead(pctx.HTTPRequest.URL.Path)] == "dns-query" && validLabel(segs(pctx.HTTPRequest.URL.Path)[lead(pctx.HTTPRequest.URL.Path)+1]) && clientID == strings.ToLower(segs(pctx.HTTPRequest.URL.Path)[lead(pctx.HTTPRequest.URL.Path)+1])
+//@   ensures extra-parts-fail: pctx.HTTPRequest != nil && len(segs(pctx.HTTPRequest.URL.Path)) - lead(pctx.HTTPRequest.URL.Path) > 2 ==> err != nil
+//@   ensures wrong-prefix-fails: pctx.HTTPRequest != nil && len(segs(pctx.HTTPRequest.URL.Path)) - lead(pctx.HTTPRequest.URL.Path) >= 1 && segs(pctx.HTTPRequest.URL.Path)[lead(pctx.HTTPRequest.URL.Path)] != "dns-query" ==> err != nil
+//@   ensures invalid-label-fails: pctx.HTTPRequest != nil && len(segs(pctx.HTTPRequest.URL.Path)) - lead(pctx.HTTPRequest.URL.Path) == 2 && !validLabel(segs(pctx.HTTPRequest.URL.Path)[lead(pctx.HTTPRequest.URL.Path)+1]) ==> err != nil
+//@   ensures bare-path: pctx.HTTPRequest != nil && len(segs(pctx.HTTPRequest.URL.Path)) - lead(pctx.HTTPRequest.URL.Path) == 1 && segs(pctx.HTTPRequest.URL.Path)[lead(pctx.HTTPRequest.URL.Path)] == "dns-query" ==> err == nil && clientID == ""
+
+// Reads connection state only (TLS / QUIC / HTTP request objects); body is I/O glue and is not verified.
+//@ func clientServerName(pctx *proxy.DNSContext, proto proxy.Proto) (srvName string, err error)
+//@   trusted
+//@   modifies nothing
